@@ -43,6 +43,7 @@ fn observe(db: &mut RootDatabase, code: &str) -> (String, String) {
 /// matches, snapshots, destructors, default trait methods, aliases, generics, recursion, byte arrays, format macros,
 /// 5-variant enums, must_use / deprecated / unstable attributes, visibilities, re-exports, associated items).
 const LIB: &str = include_str!("c20_lib.cairo");
+const LIB_2024: &str = include_str!("c20_lib_2024.cairo");
 
 const LIB_DEPENDENTS: &[(&str, &str)] = &[
     ("area", "use mylib::shapes::{Pt, Shape, Area};\nfn f(a: u8, b: u8) -> u32 { let s = Shape::Seg((Pt { x: a, y: 1 }, Pt { x: 2, y: b })); s.area() }\n"),
@@ -94,44 +95,99 @@ const LIB_DEPENDENTS: &[(&str, &str)] = &[
     ("feat:wrong-arity", "fn f(a: u8) -> u8 { mylib::feats::f_nopanic(a, a) }\n"),
     ("feat:derive-debug", "use mylib::feats::Pt;\nfn f(a: u8) -> u32 { let s = format!(\"{:?}\", Pt { x: a, y: 1 }); s.len() }\n"),
     ("feat:impl-lib-trait-for-local", "use mylib::feats::Tr;\n#[derive(Drop, Copy)]\nstruct L { v: u8 }\nimpl TrL of Tr<L> { fn base(self: L) -> u32 { self.v.into() } }\nfn f(a: u8) -> u32 { L { v: a }.twice() }\n"),
+    ("f2:const-fn", "const K: u8 = mylib::feats2::cf(9);\nfn f(a: u8) -> u8 { K / 2 + mylib::feats2::cf(a) / 2 }\n"),
+    ("f2:consts", "use mylib::feats2::{C_REF, C_BOOL, C_I128, C_U64, C_NZ, C_E5, C_NESTED, C_FROM_FN};\nfn f(a: u8) -> felt252 { let (p, [x, y], o) = C_NESTED; let q: u8 = C_NZ.into(); let e = match C_E5 { mylib::feats::E5::B(v) => v, _ => 0 }; let (o1, o2) = o.unwrap(); C_REF.into() + (if C_BOOL { 1 } else { 0 }) + C_I128.into() + C_U64.into() + q.into() + e.into() + p.x.into() + x.into() + y.into() + o1.into() + o2.into() + C_FROM_FN.into() + a.into() }\n"),
+    ("f2:reexported-core", "use mylib::feats2::Z;\nfn f(a: u8) -> bool { Z::is_zero(@a) }\n"),
+    ("f2:two-impls", "use mylib::feats2::{name_of, Nm};\nimpl NmU32 of Nm<u32> { fn nm(self: @u32) -> felt252 { 'u32' } }\nfn f(a: u8) -> felt252 { name_of(@a) + name_of(@7_u16) + name_of(@9_u32) + a.nm() }\n"),
+    ("f2:missing-impl", "use mylib::feats2::name_of;\nfn f(a: u64) -> felt252 { name_of(@a) }\n"),
+    ("f2:same-name", "fn f(a: u8) -> u8 { mylib::feats2::ma::same(a) / 2 + mylib::feats2::mb::same(a) / 2 }\n"),
+    ("f2:early", "fn f(a: u8) -> u8 { mylib::feats2::early(a) }\n"),
+    ("f2:late-private", "fn f(a: u8) -> u8 { mylib::feats2::late(a) }\n"),
+    ("f2:generic-enum", "use mylib::feats2::{Ei, ei_first};\nfn f(a: u8) -> felt252 { ei_first(Ei::R((a, 1))).into() + ei_first(Ei::L(5_felt252)) + ei_first(Ei::R(((a, a), (1, 2)))).val0().into() }\n#[generate_trait]\nimpl TupImpl of TupTrait { fn val0(self: (u8, u8)) -> u8 { let (x, _) = self; x } }\n"),
+    ("f2:never", "fn f(a: u8) -> u8 { if a == 7 { mylib::feats2::boom(a) } else { a } }\n"),
+    ("f2:tuples", "fn f(a: u8) -> u8 { mylib::feats2::t0(); let (x,) = mylib::feats2::t1(a); x }\n"),
+    ("f2:literals", "use mylib::feats2::{big, negbig, shortstr, bigu256, longbytes, escapes};\nfn f() -> felt252 { big() + negbig() + shortstr() + bigu256().high.into() + longbytes().len().into() + escapes().len().into() }\n"),
+    ("f2:derives", "use mylib::feats2::{Rec, Col, rec_hash};\nfn f(a: u8) -> felt252 { let r = Rec { a, b: 3 }; let d: Rec = Default::default(); let c: Col = Default::default(); let mut out = array![]; Col::Blue(r.clone()).serialize(ref out); let s = format!(\"{:?} {:?}\", r, c); (if r == d { 1 } else { 0 }) + (if c == Col::Green(a) { 1 } else { 0 }) + out.len().into() + s.len().into() + rec_hash(r) }\n"),
+    ("f2:private-member-read", "fn f(a: u8) -> u8 { mylib::feats2::mk_priv(a).b }\n"),
+    ("f2:private-member-construct", "fn f(a: u8) -> u8 { let p = mylib::feats2::Priv { a, b: 1 }; p.a }\n"),
+    ("f2:public-member", "fn f(a: u8) -> u8 { mylib::feats2::mk_priv(a).a }\n"),
+    ("f2:const-generic", "fn f() -> usize { mylib::feats2::cg::<9>().into() + mylib::feats2::fixed_sum([1, 2, 3]) + mylib::feats2::fixed_sum::<0>([]) }\n"),
+    ("f2:generic-impl-bound", "use mylib::feats2::{W2, snap_len, fspan};\nfn f(a: u8) -> u32 { let w = W2 { v: array![a] }; let n = snap_len(@w.v); let m = snap_len(@array![w]); n + m + fspan(a).len() }\n"),
+    ("f2:generic-impl-bound-missing", "use mylib::feats2::W2;\nstruct ND { v: u8 }\nfn f(a: u8) -> u8 { let _w = W2 { v: ND { v: a } }; a }\n"),
+    ("f2:handwritten-destruct", "fn f(a: u8) -> u8 { let _h = mylib::feats2::mk_hd(a); a }\n"),
+    ("f2:ambiguous-method", "use mylib::feats2::{AmbA, AmbB};\nfn f(a: u8) -> u8 { a.amb() }\n"),
+    ("f2:disambiguated-method", "use mylib::feats2::{AmbA, AmbB};\nfn f(a: u8) -> u8 { AmbA::amb(a) + AmbB::amb(a) }\n"),
+    ("f2:inline-plain", "fn f(a: u8) -> u8 { mylib::feats2::f_inline(a) + mylib::feats2::uses_dep(a) / 2 }\n"),
+    ("f2:cfg-test-item", "fn f(a: u8) -> u8 { mylib::feats2::only_in_tests(a) }\n"),
+    ("f2:question-loops", "fn f(a: u8) -> u32 { mylib::feats2::q(a).unwrap_or(3).into() + mylib::feats2::nested_loops(a) + mylib::feats2::tup_match(a, a > 100).into() }\n"),
+    ("f2:unused-import-warning", "use mylib::feats2::{cf, early};\nfn f(a: u8) -> u8 { early(a) }\n"),
+    ("f2:lib-type-in-signature-mismatch", "use mylib::feats2::Rec;\nfn g(r: Rec) -> u8 { r.a }\nfn f(a: u8) -> u8 { g(mylib::feats2::Col::Red) }\n"),
+    ("f2:moved-lib-value", "use mylib::feats2::Rec;\nfn g(r: Rec) -> u8 { r.a }\n#[derive(Drop)]\nstruct NC { r: Array<u8> }\nfn h(x: NC) -> u32 { x.r.len() }\nfn f(a: u8) -> u32 { let x = NC { r: array![a] }; h(x) + h(x) }\n"),
+];
+
+/// Dependents that need the 2024_07 library part (glob re-exports, negative impls, associated item constraints).
+const LIB_DEPENDENTS_2024: &[(&str, &str)] = &[
+    ("f3:glob", "use mylib::feats3::{gi, GS};\nfn f(a: u8) -> u8 { gi(GS { v: a }.v) }\n"),
+    ("f3:glob-of-glob", "use mylib::feats3::*;\nfn f(a: u8) -> u8 { gi(a) + GS { v: 1 }.v }\n"),
+    ("f3:glob-private", "use mylib::feats3::*;\nfn f(a: u8) -> u8 { private_in_inner(a) }\n"),
+    ("f3:glob-crate-visible", "use mylib::feats3::*;\nfn f(a: u8) -> u8 { crate_in_inner(a) }\n"),
+    ("f3:negative-impl", "use mylib::feats3::Kind;\nfn f(a: u8) -> felt252 { let arr = array![a]; arr.kind() + a.kind() }\n"),
+    ("f3:negative-impl-conflict", "use mylib::feats3::Kind;\nfn f(a: u16) -> felt252 { a.kind() }\n"),
+    ("f3:assoc-constraint", "fn f(a: u8) -> u32 { mylib::feats3::sum_iter(array![a, 2, 3].into_iter()) }\n"),
+    ("f3:visibility-private", "fn f(a: u8) -> u8 { mylib::feats::f_private(a) }\n"),
+    ("f3:visibility-crate", "fn f(a: u8) -> u8 { mylib::feats::f_hidden(a) }\n"),
+    ("f3:visibility-member", "fn f(a: u8) -> u8 { mylib::feats2::mk_priv(a).b }\n"),
 ];
 
 fn run_library(ctx: &mut Ctx) {
     let cfgs: Vec<Cfg> = ctx.tier.pick(vec![Cfg::DEFAULT], vec![Cfg::DEFAULT, Cfg::BASELINE, Cfg { opt: Opt::Avoid, ..Cfg::DEFAULT }, Cfg { opt: Opt::Small(1000), ..Cfg::DEFAULT }]);
-    for cfg in &cfgs {
+    // crate-settings profiles of the library and of its dependents: the default (edition 2023_01, where
+    // visibility is not enforced) and edition 2024_07 with the experimental features on (visibility enforced,
+    // glob re-exports, negative impls, associated item constraints: the library gets its 2024 part)
+    let profiles = [("2023_01", CrateOpts::default()), ("2024_07+experimental", CrateOpts { edition: 3, experimental: true })];
+    for (cfg, (pname, opts)) in cfgs.iter().flat_map(|c| profiles.iter().map(move |p| (c, p))) {
+        let lib_text: String = if opts.edition >= 3 { format!("{LIB}{LIB_2024}") } else { LIB.to_string() };
+        let lib_text = lib_text.as_str();
+        let deps: Vec<(&str, &str)> = if opts.edition >= 3 { LIB_DEPENDENTS.iter().chain(LIB_DEPENDENTS_2024.iter()).copied().collect() } else { LIB_DEPENDENTS.to_vec() };
         ctx.case(
-            || json!({"space":"library-crate","config":cfg.name()}),
+            || json!({"space":"library-crate","config":cfg.name(),"settings":pname}),
             |ctx| {
                 // cache of the library generated in its own database
                 let blob = {
                     let mut gdb = new_db(cfg);
-                    let ci = set_src(&mut gdb, "mylib", LIB);
+                    let ci = set_src_deps_opts(&mut gdb, "mylib", lib_text, &[], None, *opts);
+                    let (ldiag, lerr) = diagnostics(&gdb, &ci);
+                    if lerr {
+                        ctx.note(format!("harness: the library has error diagnostics under {pname}: {}", ldiag.chars().take(400).collect::<String>()));
+                        ctx.count("library_not_error_free", 1);
+                        return;
+                    }
                     let ids = cairo_lang_filesystem::ids::CrateInput::into_crate_ids(&gdb, vec![ci]);
                     match guarded(|| generate_crate_cache(&gdb, ids[0])) {
                         Ok(Ok(b)) => b,
                         Ok(Err(e)) => {
-                            ctx.violation("cache-generation-fails", format!("generating the cache of an error-free library crate fails: {e:?}"), json!({"config": cfg.name()}));
+                            ctx.violation("cache-generation-fails", format!("generating the cache of an error-free library crate fails: {e:?}"), json!({"config": cfg.name(), "settings": pname}));
                             return;
                         }
                         Err((loc, msg)) => {
-                            ctx.violation(panic_sig(&loc, &msg), format!("cache generation panicked: {msg}"), json!({"config": cfg.name()}));
+                            ctx.violation(panic_sig(&loc, &msg), format!("cache generation panicked: {msg}"), json!({"config": cfg.name(), "settings": pname}));
                             return;
                         }
                     }
                 };
                 ctx.max("library_cache_blob_bytes", blob.len() as i64);
                 let mut sdb = new_db(cfg);
-                set_src_deps(&mut sdb, "mylib", LIB, &[], None);
+                set_src_deps_opts(&mut sdb, "mylib", lib_text, &[], None, *opts);
                 let mut cdb = new_db(cfg);
-                set_src_deps(&mut cdb, "mylib", LIB, &[], Some(blob));
-                for (name, code) in LIB_DEPENDENTS {
-                    if !ctx.sub(|| json!({"dependent": name, "config": cfg.name(), "cached_crate": "mylib"})) {
+                set_src_deps_opts(&mut cdb, "mylib", lib_text, &[], Some(blob), *opts);
+                for (name, code) in &deps {
+                    if !ctx.sub(|| json!({"dependent": name, "config": cfg.name(), "settings": pname, "cached_crate": "mylib"})) {
                         continue;
                     }
                     ctx.count("evaluations", 1);
-                    ctx.distinct(&(cfg.name(), "mylib", name));
+                    ctx.distinct(&(cfg.name(), pname, "mylib", name));
                     let obs = |db: &mut RootDatabase| {
-                        let ci = set_src_deps(db, "test", code, &["mylib"], None);
+                        let ci = set_src_deps_opts(db, "test", code, &["mylib"], None, *opts);
                         let (diag, has_err) = diagnostics(db, &ci);
                         let s = if has_err { "<errors>".to_string() } else { sierra(db, &ci).map(|p| p.to_string()).unwrap_or_else(|e| format!("<{e}>")) };
                         (diag, s)
@@ -339,7 +395,7 @@ fn run(ctx: &mut Ctx) {
 pub static C20: CheckDef = CheckDef {
     id: "C20",
     level: "exploration",
-    rule: "Cached crates = corelib, and a two-module library crate with generics, traits/impls, consts, derives, an inline(always) function and recursion (10 dependents incl. ill-typed ones; cache blobs generated in-process by generate_crate_cache with the same settings) x optimisation configs {default} (thorough: + disabled, avoid-inlining). Dependents enumerated completely: every e2e cairo_code snippet (382), the 24 hand-written programs, every file of examples/ and tests/bug_samples, 12 seed programs and a type-broken variant of each (so diagnostics are exercised). For each dependent the same incremental database pair (corelib from source / corelib from cache) produces diagnostics text and Sierra text (debug-name ids); oracle: byte equality of both (CASM is a function of the Sierra text). distinct_nontrivial = distinct (config, dependent).",
+    rule: "Cached crates = corelib, the MiniCairo space packed into library crates, and a feature library with one item per kind of thing a cache must carry (~90 kinds: declared implicits, nopanic, inline attributes, ref parameters, 16 const shapes incl. const fn results / NonZero / enum variant / nested aggregates, closures, loops, snapshots, destructors (derived and handwritten), default trait methods, aliases, generics, generic enums, const generics, recursion, ByteArray / escapes / big and negative literals, format macros, derives (Clone, Default, Hash, Debug, Serde, PartialEq), must_use / deprecated / unstable / cfg(test), visibilities incl. private members, re-exports (named, of core items, globs), associated items, two impls of one trait, same-named items, use before declaration, never type, tuples of size 0/1, ambiguous methods, negative impls, associated item constraints) with 87 dependents incl. ill-typed ones whose diagnostics mention library items, under two crate-settings profiles (edition 2023_01; edition 2024_07 + experimental features, where visibility is enforced) x optimisation configs {default} (thorough: + disabled, avoid-inlining, small-inlining); cache blobs generated in-process by generate_crate_cache with the same settings. Dependents enumerated completely: every e2e cairo_code snippet (382), the 24 hand-written programs, every file of examples/ and tests/bug_samples, 12 seed programs and a type-broken variant of each (so diagnostics are exercised). For each dependent the same incremental database pair (corelib from source / corelib from cache) produces diagnostics text and Sierra text (debug-name ids); oracle: byte equality of both (CASM is a function of the Sierra text). distinct_nontrivial = distinct (config, dependent).",
     assumptions: &["cached crates: the corelib and one library crate"],
     run,
     stack_mb: 32,
@@ -347,3 +403,20 @@ pub static C20: CheckDef = CheckDef {
     wall_cap_s: (55, 1500),
     shards: 0,
 };
+
+/// Prints, per settings profile, which dependents compile and the first diagnostic line of the others.
+pub fn debug_dependents() {
+    let cfg = Cfg::DEFAULT;
+    for (pname, opts) in [("2023_01", CrateOpts::default()), ("2024_07+experimental", CrateOpts { edition: 3, experimental: true })] {
+        let lib_text: String = if opts.edition >= 3 { format!("{LIB}{LIB_2024}") } else { LIB.to_string() };
+        let deps: Vec<(&str, &str)> = if opts.edition >= 3 { LIB_DEPENDENTS.iter().chain(LIB_DEPENDENTS_2024.iter()).copied().collect() } else { LIB_DEPENDENTS.to_vec() };
+        let mut db = new_db(&cfg);
+        set_src_deps_opts(&mut db, "mylib", &lib_text, &[], None, opts);
+        for (name, code) in deps {
+            let ci = set_src_deps_opts(&mut db, "test", code, &["mylib"], None, opts);
+            let (diag, err) = diagnostics(&db, &ci);
+            let first = diag.lines().find(|l| l.starts_with("error") || l.starts_with("warning")).unwrap_or("");
+            println!("{pname} {name}: {} {}", if err { "ERRORS" } else { "ok" }, first);
+        }
+    }
+}
